@@ -12,7 +12,11 @@ Implementation side (oracle = the property): metamorphic PAIRS of public-API emb
 Model side: lean/TapkeeVerif/Model/Equivariance.lean evaluated at Rat by lean/Driver/C12.lean (model_c12) on both
 members of a pair (the relation the theorems of Props/C12.lean state), the observed pre-matrices against the model's,
 and all approximate comparisons (exact rational arithmetic on the dyadic outputs, declared tolerance).
-Translator: tools/translate_statics.py -> Gen/Statics.lean (static objects of include/tapkee; `no_hidden_state`)."""
+Translator: tools/translate_statics.py -> Gen/Statics.lean (every object of static storage duration of include/tapkee,
+include/stichwort, src/cli/*.hpp with type / const / run-time-initialiser / returned flags; `no_hidden_state`,
+`statics_constant_or_accepted` against the hand-kept `acceptedStatics` of Props/C12.lean).  An object that is neither
+a constant nor accepted is reported by name (broken obligation) and chased by parameter histories on the methods that
+include its header: same method twice with one numeric keyword changed vs a fresh process."""
 import os
 import re
 import threading
